@@ -52,6 +52,8 @@ def configs(tier, seed):
         out.append({"seed": 100 * seed + 60, "kwargs": {**base, "max_iteration": 4}, "resume_after": [2]})
         out.append({"seed": 100 * seed + 61, "model": "gaussprior", "resume_after": [1, 3],
                     "kwargs": {**base, "max_iteration": 4, "save_log_q": True, "strict_threshold": True}})
+        # ... and more stored samples than any internal batch size at the moment a checkpoint WITHOUT the density table is resumed
+        out.append({"seed": 100 * seed + 71, "kwargs": {**base, "nlive": 6000, "max_iteration": 3}, "resume_after": [1], "hang_after": 900})
         # more samples in one store than any internal batch size of the density evaluation
         out.append({"seed": 100 * seed + 70, "kwargs": {**base, "nlive": 26000, "max_iteration": 1}, "hang_after": 900})
     else:
